@@ -372,26 +372,16 @@ func (c *CharSet) prepareASCIIBitmap() {
 func (c *CharSet) charInCategories(ch rune) bool {
 	for _, ct := range c.categories {
 		// special categories...then unicode
+		var in bool
 		if ct.Cat == SpaceCategoryText {
-			if unicode.IsSpace(ch) {
-				// we found a space so we're done
-				// negate means this is a "bad" thing
-				return !ct.Negate
-			} else if ct.Negate {
-				return true
-			}
+			in = unicode.IsSpace(ch)
 		} else if ct.Cat == WordCategoryText {
-			if IsWordChar(ch) {
-				return !ct.Negate
-			} else if ct.Negate {
-				return true
-			}
-		} else if unicode.Is(unicodeCategories[ct.Cat], ch) {
-			// if we're in this unicode category then we're done
-			// if negate=true on this category then we "failed" our test
-			// otherwise we're good that we found it
-			return !ct.Negate
-		} else if ct.Negate {
+			in = IsWordChar(ch)
+		} else {
+			in = unicode.Is(unicodeCategories[ct.Cat], ch)
+		}
+		// the class is the union of its (possibly negated) categories
+		if in != ct.Negate {
 			return true
 		}
 	}
